@@ -41,9 +41,13 @@ CTX = [("int", dict(type="int", size=None, nullable=True, default=None)),
 POS = ["S", "T", "C1", "C2", "C3", "K1", "K2", "K3", "RS", "RT", "RC", "IX", "K4", "Q", "TY", "D"]
 BASE = {"S": "sc", "T": "tb", "C1": "ca", "C2": "cb", "C3": "cc", "K1": "ka", "K2": "kb", "K3": "kc", "RS": "rs", "RT": "rt", "RC": "rc",
         "IX": "ix", "K4": "kd", "Q": "sq", "TY": "ty", "D": "dm"}
-FORMS = ["lower", "Mixed", "UPPER", "x_1", "dq", "bt", "br", "dq_us", "br_us", "dq_sp", "dq_nest", "bt_dbl", "br_dbl", "bt_dash", "arr", "Arr", "dq_dot"]
+FORMS = ["lower", "Mixed", "UPPER", "x_1", "dq", "bt", "br", "dq_us", "br_us", "dq_sp", "dq_nest", "bt_dbl", "br_dbl", "bt_dash", "arr", "Arr", "dq_dot", "kw"]
+# a keyword-shaped plain name per naming position (after a dot inside parentheses the word must still be a name)
+KWFORM = {"C1": "order", "C2": "key2", "C3": "set", "K1": "check1", "K2": "unique1", "K3": "foreign1", "RT": "comment",
+          "RC": "order", "IX": "index1", "K4": "default1", "Q": "cache", "TY": "tag", "D": "map"}
 # words the grammar actions compare by value although they are not tokens: legal names in any spelling but the exact upper-case one
 PSEUDO_KW = ["ASC", "DESC"]
+LINE_WORDS = {"CREATE", "ALTER", "DROP", "SET", "GO", "USE", "INSERT", "GRANT", "DELETE"}
 SCRIPT = ("CREATE TABLE {S}.{T} ({C1} int, {C2} varchar(5), {C3} int, CONSTRAINT {K1} PRIMARY KEY ({C1}, {C2}), "
           "CONSTRAINT {K2} UNIQUE ({C2}, {C3}), CONSTRAINT {K3} FOREIGN KEY ({C3}) REFERENCES {RS}.{RT} ({RC}));\n"
           "CREATE INDEX {IX} ON {S}.{T} ({C1}, {C3});\n"
@@ -77,6 +81,9 @@ def keywords():
     return sorted(kws)
 
 
+_POS_OF = {v: k for k, v in BASE.items()}
+
+
 def form(name, f):
     return {"lower": name, "Mixed": name.capitalize(), "UPPER": name.upper(), "x_1": name + "_1", "dq": '"%s"' % name.capitalize(),
             "bt": "`%s`" % name.capitalize(), "br": "[%s]" % name.capitalize(), "dq_us": '"_%s_"' % name, "br_us": "[_%s_]" % name,
@@ -84,7 +91,7 @@ def form(name, f):
             # a delimited name that contains its own (doubled) delimiter, and one with a dash
             "bt_dbl": "`%s``%s`" % (name[0], name[1:]), "br_dbl": "[%s]]%s]" % (name[0], name[1:]), "bt_dash": "`%s-%s`" % (name[0], name[1:]),
             # plain names that begin with the word ARRAY (a type keyword the lexer tests by prefix), and a quoted name containing a dot
-            "arr": "array_" + name, "Arr": "Arrays" + name.capitalize(), "dq_dot": '"%s.%s"' % (name, name)}[f]
+            "kw": KWFORM.get(_POS_OF.get(name), name), "arr": "array_" + name, "Arr": "Arrays" + name.capitalize(), "dq_dot": '"%s.%s"' % (name, name)}[f]
 
 
 def strip1(s):
@@ -109,6 +116,10 @@ def gen_cases(tier):
                         if listed == "pk" and ci == 3:
                             continue
                         cases.append({"kind": "kw", "kw": kw, "form": f, "pos": p, "ctx": ci, "listed": listed, "excluded": kw in EXCL})
+                        if listed is None and ci in (0, 1) and kw not in LINE_WORDS:
+                            # one column per line: the keyword-named column then starts a line (GO USE INSERT GRANT DELETE and the
+                            # statement words are excluded by the property's own proviso)
+                            cases.append({"kind": "kw", "kw": kw, "form": f, "pos": p, "ctx": ci, "listed": listed, "excluded": kw in EXCL, "lines": True})
                         if p >= 1 and ci in (0, 1) and f in "Ul":
                             # the same, with a CHECK clause on the column before it (a lexer flag set by CHECK must not outlive the clause)
                             cases.append({"kind": "kw", "kw": kw, "form": f, "pos": p, "ctx": ci, "listed": listed, "excluded": kw in EXCL, "chk": True})
@@ -182,6 +193,8 @@ def kw_ddl(case):
     if case["listed"] == "uq":
         extra = ", UNIQUE (%s, %s)" % (other, name)
     tail = "\nCREATE INDEX ix1 ON t (%s, %s DESC);" % (other, name) if case["listed"] == "ix" else ""
+    if case.get("lines"):
+        return "CREATE TABLE t (\n  %s%s\n);" % (",\n  ".join(cols), extra) + tail, name, other
     return "CREATE TABLE t (%s%s);" % (", ".join(cols), extra) + tail, name, other
 
 
@@ -251,6 +264,8 @@ def features(case):
                 f.append("delimited:" + p)
             if fm in ("dq_nest", "bt_nest"):
                 f.append("delimited:nested-delimiters")
+            if fm == "kw" and p == "C1":
+                f.append("kw-name:cited-by-alter-or-index-statement")
         if not case["nn"]:
             f = [x + ":verbatim" for x in f]
     return f
